@@ -43,24 +43,23 @@ package disasm
 
 //@ func (p *parser) Parse(objDump string) ([]Syscall, error)   properties C16
 //@   requires p != nil && p.Info != nil
-//@   requires ghost.pos == 0 && ghost.nlines >= 0 && ghost.fstart == 0 - 1
+//@   requires ghost.pos == 0 && ghost.nlines >= 0 
 //@   calls p.parse in parseX86_64
 //@   ensures @no_truncation {C16} ghost.scanErr != nil ==> result1 != nil
 //@   ensures @err_no_result {C16} result1 != nil ==> len(result0) == 0
 //@   ensures @names {C16} forall(j, 0, len(result0), has(p.SyscallNumbers, result0[j].Num) && p.SyscallNumbers[result0[j].Num] == result0[j].Name)
-//@   ghost ghost.fstart = ite(prefixof("TEXT", line), ghost.pos - 1, ghost.fstart) at after call strings.HasPrefix#1
 //@   ghost let sc0 = syscalls at loop 1 body
-//@   assert @same_function {C16} exists(m, ghost.fstart + 1, ghost.pos, contains(ghost.lines[m], syscall.Assembly)) at after assign syscalls#1
+//@   assert @same_function {C16} exists(m, 0, ghost.pos, contains(ghost.lines[m], syscall.Assembly) && forall(q, m, ghost.pos, !prefixof("TEXT", ghost.lines[q]))) at after assign syscalls#1
 //@   assert @append_only {C16} len(syscalls) >= len(sc0) && forall(j, 0, len(sc0), syscalls[j] == sc0[j]) at loop 1 end
 //@   loop 1
-//@     invariant @pos 0 <= ghost.pos && ghost.pos <= ghost.nlines && ghost.fstart < ghost.pos && ghost.fstart >= 0 - 1
+//@     invariant @pos 0 <= ghost.pos && ghost.pos <= ghost.nlines
 //@     invariant @own own(syscalls) && own(instructions)
-//@     invariant @scope {C16} forall(j, 0, len(instructions), exists(m, ghost.fstart + 1, ghost.pos, instructions[j] == ghost.lines[m]))
+//@     invariant @scope {C16} forall(j, 0, len(instructions), exists(m, 0, ghost.pos, instructions[j] == ghost.lines[m] && forall(q, m, ghost.pos, !prefixof("TEXT", ghost.lines[q]))))
 //@     invariant @names {C16} forall(j, 0, len(syscalls), has(p.SyscallNumbers, syscalls[j].Num) && p.SyscallNumbers[syscalls[j].Num] == syscalls[j].Name)
 //@     decreases ghost.nlines - ghost.pos
 
 //@ func ExtractSyscalls(arch *arch.Info, objDump string) ([]Syscall, error)   properties C16
 //@   requires arch != nil
-//@   requires ghost.pos == 0 && ghost.nlines >= 0 && ghost.fstart == 0 - 1
+//@   requires ghost.pos == 0 && ghost.nlines >= 0 
 //@   ensures @no_truncation {C16} ghost.scanErr != nil ==> result1 != nil
 //@   ensures @err_no_result {C16} result1 != nil ==> len(result0) == 0
